@@ -101,11 +101,23 @@ UNITS = [
                  "superset_of chain, 1 integer set, 2 sets of enumeration literals (one a superset of the other); 1 "
                  "enumeration with 10 literal values; 8 texts that are no literal value.  A list of examples",
            args={}, timeout_s=600),
+    # C18, first alternative of the statement ("run by the generated C++ matcher"): the emitted common.*, revm.* and the
+    # emitted program definitions compiled with g++ and run
+    Native("the generated C++ matcher, compiled and run on the generated programs", ["C18"], "native.c18cpp:bounded",
+           kind="bounded",
+           bound="every 41st (thorough: 7th) two-term pattern and all one-term patterns of the unit below + 23 hand-picked "
+                 "ones (astral characters, \\x / \\u escapes, empty alternatives, comments with */ and trailing "
+                 "backslashes): ~750 (thorough ~3 700) programs emitted by _generate_program_definition_for_regex, "
+                 "compiled together with the emitted common.cpp and revm.cpp (g++ -std=c++17, 32-bit wchar_t: the "
+                 "UTF-32 branch) and run on 165 strings (all over 'abcd.' up to length 3 + 9 with astral / Latin-1 "
+                 "characters); answers compared with re.fullmatch; a program that does not answer within 2 s counts "
+                 "as not terminating", args={"stride": 41, "hang_s": 2}, thorough_args={"stride": 7, "hang_s": 2},
+           timeout_s=3000),
     Native("small anchored patterns: the VM program against re.fullmatch", ["C18"], "native.c18:bounded", kind="bounded",
            bound="every pattern ^t1 t2$ with <= 2 terms from 14 atoms (chars, escapes, '.', sets, complemented and range "
                  "sets, groups with alternation / nesting / empty alternative) x 11 quantifiers (none * + ? {2} {1,2} "
                  "{2,} {,2} {0} {0,1} {3}) + 13 hand-picked patterns, run on every string over 'abcd.' of length <= 3 "
                  "(thorough: <= 5) by a reference Pike VM; labels must equal instruction indices; exhaustive within "
-                 "the bound.  The generated C++ matcher itself is not run",
+                 "the bound",
            args={"max_terms": 2, "max_len": 3}, thorough_args={"max_terms": 2, "max_len": 5}, timeout_s=3000),
 ]
